@@ -53,6 +53,22 @@ extern "C" void abort() {
   _exit(134);
 }
 
+/// memory faults of the code under test inside an evaluation end it like an abort
+static void fault_handler(int sig) {
+  if (g_jmp)
+    siglongjmp(*g_jmp, 2);
+  signal(sig, SIG_DFL);
+  raise(sig);
+}
+static void install_fault_handler() {
+  struct sigaction sa;
+  memset(&sa, 0, sizeof(sa));
+  sa.sa_handler = fault_handler;
+  sa.sa_flags = SA_NODEFER;
+  sigaction(SIGSEGV, &sa, nullptr);
+  sigaction(SIGBUS, &sa, nullptr);
+}
+
 // ---------------------------------------------------------------- key model
 static inline int key_level(uint64_t key) {
   const uint32_t c = (uint32_t)(key & 0xffffffffu);
@@ -184,12 +200,13 @@ static uint64_t evaluate(const Cfg &cfg, const KeyVec &hist, BuildMode mode, boo
   const std::string cls = cfg.dyadic ? "" : ":nondyadic";
   ++C.evals;
 
+  static const char *STAGE[6] = {"setup", "build", "enumeration", "nodes", "position-lattice", "neighbours"};
   sigjmp_buf jb;
   volatile int stage = 0;
   if (sigsetjmp(jb, 1)) {
     g_jmp = nullptr;
-    R.violation(fmt("C16:amr:abort:stage%d%s", (int)stage, cls.c_str()),
-                fmt("cmac_error/abort in stage %d, cfg %s, build %s, history [%s]", (int)stage,
+    R.violation(fmt("C16:amr:abort-or-crash:%s%s", STAGE[(int)stage], cls.c_str()),
+                fmt("cmac_error/abort or memory fault in stage %d (%s), cfg %s, build %s, history [%s]", (int)stage, STAGE[(int)stage],
                     cfg.name.c_str(), modename, hist_str(hist).c_str()),
                 rep);
     return 0;
@@ -764,6 +781,7 @@ int main(int argc, char **argv) {
   Args A = parse_args(argc, argv);
   Result R(A);
   const std::vector< Cfg > cfgs = all_cfgs();
+  install_fault_handler();
   if (A.replay.empty() && !freopen("/dev/null", "w", stderr)) {
   }
 
